@@ -154,19 +154,30 @@ class TLV:
         result = []
         # do not influence caller!
         tail = ba.copy()
+        previous_key = None
         while len(tail) > 0:
             key = tail.pop(0)
-            if expected and key not in expected:
-                break
+            # Items we are not interested in are skipped, but what follows them
+            # (for example an error after a retry delay) still matters
+            skip = bool(expected) and key not in expected
             if len(tail) == 0:
+                if skip:
+                    break
                 raise TlvParseException(f"Missing length for type {key} while decoding '{ba}'")
             length = tail.pop(0)
             value = tail[:length]
             if length != len(value):
+                if skip:
+                    break
                 raise TlvParseException(f"Not enough data for length {length} while decoding '{ba}'")
             tail = tail[length:]
 
-            if len(result) > 0 and result[-1][0] == key:
+            is_fragment = previous_key == key
+            previous_key = key
+            if skip:
+                continue
+
+            if is_fragment and len(result) > 0 and result[-1][0] == key:
                 result[-1][1] += value
             else:
                 result.append([key, value])
